@@ -27,7 +27,7 @@ def check(tier, seed):
                        "tolerance: projected gradient <= 10*max(gtol, sqrt(2 L eps max(1,|f|))) - the level at which "
                        "a decrease of the objective can no longer be observed in floating point"]
     out.explanation = "no proof: bounded run-time contract on generated convex box problems"
-    attach_standin(out, PID, tier, seed, quick_runs=320, thorough_runs=20000,
+    attach_standin(out, PID, tier, seed, quick_runs=2400, thorough_runs=40000,
                    what="strictly convex box QP (cond <= 1e4), QP+quartic, QP+softplus, n 1..12, maxcor 1..10, ftol=0, "
                         "ample budgets: recomputed projected gradient at the returned point")
     out.selected = []
